@@ -22,7 +22,7 @@ EXPLANATION = 'value postconditions against the dense reductions, discharged by 
 def subsets(d, quick):
     allsub = [list(c) for r in range(1, d + 1) for c in itertools.combinations(range(d), r)]
     if quick and d >= 3:
-        keep = [[0], [d - 1], [0, d - 1], [1], list(range(d)), [0, 1]]
+        keep = [[0], [d - 1], [0, d - 1], [1], list(range(d)), [0, 1], [d - 2, d - 1]]
         return [s for s in allsub if s in keep]
     return allsub
 
@@ -42,7 +42,7 @@ def grid_sum(dmax, dmax_m, quick):
     return out
 
 
-@scenario('C07', 'sum', 'torchtt._tt_base.TT.sum', quick=grid_sum(3, 2, True), thorough=grid_sum(5, 3, False), dtypes=('float64',), replay='sum', max_paths=400)
+@scenario('C07', 'sum', 'torchtt._tt_base.TT.sum', quick=grid_sum(3, 3, True), thorough=grid_sum(5, 3, False), dtypes=('float64',), replay='sum', max_paths=400)
 def sum_(ob, d, ttm, index):
     """x.sum(index) equals the dense sum over the listed modes (all modes when index is None); the result keeps
     every mode that is not summed, including original singleton modes"""
